@@ -1,4 +1,7 @@
 (* C09: line-protocol driver around the extracted model Ptotal (stdin -> stdout).
+   SKIP / TOK / OPT / FMT ask the model of the code as it is in /repo now (the *_fixed / *_cur
+   definitions); SKIPOLD / TOKOLD / OPTOLD / FMTOLD ask the model of the code before the repairs
+   (its defect predictions HANG / oob=1 / WILD are the regression inputs of checks/C09.py).
      SKIP <hex>        -> SKIP pos=<n> | SKIP HANG
      TOK <F|M> <hex>   -> TOKENS <n> <hex,hex,...> oob=<0|1> | TOKENS OUTOFFUEL
      OPT <hex>         -> OPT flag=<NAME> value=<hex|-> err=<0|1> msg=<escaped|WILD> oob=<0|1> | OPT TOOLONG | OPT CRASH
@@ -38,33 +41,33 @@ let env : z -> z = fun _ -> garbage
 
 let handle (line : string) : string =
   match String.split_on_char ' ' (String.trim line) with
-  | ["SKIP"; h] ->
+  | ["SKIPOLD"; h] ->
       let b = bytes_of_hex h in
       let n = List.length b in
       (match skip_comments (nat_of_int (n + 2)) b with
        | Done r -> Printf.sprintf "SKIP pos=%d" (n - List.length r)
        | _ -> "SKIP HANG")
-  | ["SKIPFIXED"; h] ->
+  | ["SKIP"; h] ->
       let b = bytes_of_hex h in
       let n = List.length b in
       (match skip_comments_fixed (nat_of_int (n + 2)) b with
        | Done r -> Printf.sprintf "SKIP pos=%d" (n - List.length r)
        | _ -> "SKIP HANG")
-  | ["TOK"; k; h] ->
+  | [("TOK" | "TOKOLD") as cmd; k; h] ->
       let b = bytes_of_hex h in
       let b = if k = "M" then until_nul b else b in
       let n = List.length b in
       let kind = if k = "M" then MemStream else FileStream in
-      (match tokens_stream (nat_of_int (n + 2)) (nat_of_int (n + 1100)) kind b [] false with
+      (match (if cmd = "TOK" then tokens_stream_cur else tokens_stream) (nat_of_int (n + 2)) (nat_of_int (2 * n + 1100)) kind b [] false with
        | Done (toks, oob) ->
            Printf.sprintf "TOKENS %d %s oob=%d" (List.length toks)
              (String.concat "," (List.map hex_of_bytes toks)) (if oob then 1 else 0)
        | OutOfFuel -> "TOKENS OUTOFFUEL"
        | Crash _ -> "TOKENS CRASH")
-  | [("OPT" | "OPTFIXED") as cmd; h] ->
+  | [("OPT" | "OPTOLD") as cmd; h] ->
       let b = until_nul (bytes_of_hex h) in
       let n = List.length b in
-      (match (if cmd = "OPT" then parse_option_line else parse_option_line_fixed) (nat_of_int (n + 300)) b env with
+      (match (if cmd = "OPT" then parse_option_line_fixed else parse_option_line) (nat_of_int (n + 300)) b env with
        | Done OTooLong -> "OPT TOOLONG"
        | Done (OOpt (f, v, e, oob)) ->
            Printf.sprintf "OPT flag=%s value=%s err=%d msg=%s oob=%d" (flag_name f)
@@ -74,12 +77,12 @@ let handle (line : string) : string =
              (if oob then 1 else 0)
        | OutOfFuel -> "OPT OUTOFFUEL"
        | Crash _ -> "OPT CRASH")
-  | ["FMT"; h] ->
+  | ["FMTOLD"; h] ->
       let b = until_nul (bytes_of_hex h) in
       (match raise_parsing_error (z_of_int 7) b (str "C09MSG") with
        | MOk s -> "MSG " ^ escaped s
        | MWild -> "MSG WILD")
-  | ["FMTFIXED"; h] ->
+  | ["FMT"; h] ->
       let b = until_nul (bytes_of_hex h) in
       (match raise_parsing_error_fixed (z_of_int 7) b (str "C09MSG") with
        | MOk s -> "MSG " ^ escaped s
